@@ -65,6 +65,14 @@ Theorem C17_line_points_translate : forall l d,
   line_points (translate_line l d) = map (fun p => padd p d) (line_points l).
 Proof. exact line_points_translate. Qed.
 
+(* Line::with_delta (start, delta) and Line::delta are inverse to each other *)
+Theorem C17_line_with_delta_delta : forall l, with_delta (l_start l) (line_delta l) = l.
+Proof. exact with_delta_delta. Qed.
+
+Theorem C17_line_delta_with_delta : forall s d,
+  line_delta (with_delta s d) = d /\ l_start (with_delta s d) = s.
+Proof. exact delta_with_delta. Qed.
+
 (* under line_ok every value Points::new / Bresenham::next computes fits its machine type
    (bstates = the iterator states before each call of next; err_after_test = the value of `error`
    between the threshold test and the major step) *)
